@@ -156,17 +156,24 @@ class Orbit:
 
     TRANSPARENT = {"tuple", "list", "sorted", "frozenset", "set"}
 
-    def __init__(self, ctx: Ctx, po: PermOps, op_of_method, helpers: Dict[str, Map2]):
+    def __init__(self, ctx: Ctx, po: PermOps, op_of_method, helpers: Dict[str, Map2], stabiliser: Optional[List[Map2]] = None):
         self.ctx = ctx
         self.po = po
         self.op_of_method = op_of_method
         self.helpers = helpers
         self.wrappers_on_collected: List[str] = []
+        # symmetry type of the input: images g(x), g'(x) coincide iff they lie in the same coset of Stab(x)
+        self.stab = stabiliser or [D4_POINT["id"]]
+
+    def canon(self, g: Map2) -> Map2:
+        """Canonical representative of the image g(x) when x is fixed by every element of the stabiliser."""
+        return min((h.then(g) for h in self.stab), key=repr)
 
     def val(self, fi: FuncInfo, node: ast.AST, env: Dict[str, object]):
         if isinstance(node, ast.Name):
             if node.id in env:
-                return env[node.id]
+                v = env[node.id]
+                return self.canon(v) if isinstance(v, Map2) else v
             raise AnalysisError(f"{fi.where}: unknown name {node.id} in orbit builder")
         if isinstance(node, ast.IfExp):
             a, b = self.val(fi, node.body, env), self.val(fi, node.orelse, env)
@@ -183,11 +190,11 @@ class Orbit:
                 base = self.val(fi, node.args[0], env)
                 if not isinstance(base, Map2):
                     raise AnalysisError(f"{fi.where}: helper applied to a non-element")
-                return base.then(self.helpers[cn[0]])
+                return self.canon(base.then(self.helpers[cn[0]]))
             if isinstance(node.func, ast.Attribute):
                 base = self.val(fi, node.func.value, env)
                 if isinstance(base, Map2):
-                    return base.then(self.op_of_method(fi, node))
+                    return self.canon(base.then(self.op_of_method(fi, node)))
         raise AnalysisError(f"{fi.where}: expression `{unparse(node)[:60]}` not recognised in orbit builder")
 
     def wrappers(self, node: ast.AST) -> List[str]:
@@ -198,9 +205,29 @@ class Orbit:
         return out
 
     def run(self, fi: FuncInfo, start_names: List[str]) -> Tuple[Set[Map2], str]:
-        env: Dict[str, object] = {nm: D4_POINT["id"] for nm in start_names}
+        env: Dict[str, object] = {nm: self.canon(D4_POINT["id"]) for nm in start_names}
         sets: Dict[str, Set[Map2]] = {}
         returned: Optional[str] = None
+
+        class _Break(Exception):
+            pass
+
+        class _Continue(Exception):
+            pass
+
+        def truth(t: ast.AST) -> bool:
+            if isinstance(t, ast.UnaryOp) and isinstance(t.op, ast.Not):
+                return not truth(t.operand)
+            if isinstance(t, ast.Compare) and len(t.ops) == 1 and isinstance(t.ops[0], (ast.In, ast.NotIn)) and isinstance(t.comparators[0], ast.Name) and t.comparators[0].id in sets:
+                v = self.val(fi, t.left, env)
+                if isinstance(v, Map2):
+                    res = v in sets[t.comparators[0].id]
+                    return res if isinstance(t.ops[0], ast.In) else not res
+            if isinstance(t, ast.Compare) and len(t.ops) == 1 and isinstance(t.ops[0], (ast.Eq, ast.NotEq)):
+                a, b = self.val(fi, t.left, env), self.val(fi, t.comparators[0], env)
+                if isinstance(a, Map2) and isinstance(b, Map2):
+                    return (a == b) if isinstance(t.ops[0], ast.Eq) else (a != b)
+            raise AnalysisError(f"{fi.where}: condition `{unparse(t)[:60]}` not recognised in orbit builder")
 
         def assign(t: ast.AST, v: ast.AST) -> None:
             if not isinstance(t, ast.Name):
@@ -241,8 +268,20 @@ class Orbit:
                         k = const_value(it.args[0])
                     except ValueError:
                         raise AnalysisError(f"{fi.where}: loop bound is not constant")
-                    for _ in range(k):
-                        exec_block(st.body)
+                    try:
+                        for _ in range(k):
+                            try:
+                                exec_block(st.body)
+                            except _Continue:
+                                continue
+                    except _Break:
+                        pass
+                elif isinstance(st, ast.If):
+                    exec_block(st.body if truth(st.test) else st.orelse)
+                elif isinstance(st, ast.Break):
+                    raise _Break()
+                elif isinstance(st, ast.Continue):
+                    raise _Continue()
                 elif isinstance(st, ast.Expr) and isinstance(st.value, ast.Call):
                     cn = call_name(st.value)
                     if cn and len(cn) == 2 and cn[0] in sets and cn[1] in ("add", "update"):
@@ -303,20 +342,30 @@ def rule_a4(ctx: Ctx, po: PermOps, mo: MeshOps) -> None:
         ("MeshPatt.all_syms", repo.need_method("MeshPatt", "all_syms"), mesh_method, ["self"]),
         ("all_symmetry_sets", repo.func("permuta.permutils.symmetry:all_symmetry_sets"), perm_method, None),
     ]
+    subgroups = d4_subgroups()
     for label, fi, opm, starts in jobs:
-        ob = Orbit(ctx, po, opm, helpers)
         start = starts if starts is not None else [fi.params[0]]
+        ob = Orbit(ctx, po, opm, helpers)
+        bad = None
         try:
-            got, _name = ob.run(fi, start)
+            for H in subgroups:
+                ob = Orbit(ctx, po, opm, helpers, H)
+                got, _name = ob.run(fi, start)
+                want = {ob.canon(g) for g in full}
+                if got != want:
+                    missing = sorted(k for k, v in D4_POINT.items() if ob.canon(v) not in got)
+                    foreign = [repr(g) for g in got if g not in want]
+                    bad = (H, got, missing, foreign, want)
+                    break
         except AnalysisError as exc:
             ctx.undecided.append(str(exc))
             continue
-        if got == full:
-            ctx.ok("C04-A4", fi.where, f"{label} collects all 8 elements of D4 (abstract execution of its fixed-bound loop over the finite group)", fi.node, fi)
+        if bad is None:
+            ctx.ok("C04-A4", fi.where, f"{label} collects exactly the orbit for every symmetry type of its input (abstract execution over D4 modulo each of its {len(subgroups)} subgroups as stabiliser; 8 images for an asymmetric input)", fi.node, fi)
         else:
-            missing = sorted(k for k, v in D4_POINT.items() if v not in got)
-            foreign = [repr(g) for g in got if g not in full]
-            ctx.violation("C04-A4", fi, fi.node, f"{label} collects {len(got)} symmetric images; missing {missing}{' foreign ' + str(foreign) if foreign else ''}: not the whole orbit")
+            H, got, missing, foreign, want = bad
+            kind = "an asymmetric input" if len(H) == 1 else f"an input fixed by {sorted(name_of_point_map(h) or repr(h) for h in H if h != D4_POINT['id'])}"
+            ctx.violation("C04-A4", fi, fi.node, f"{label} returns {len(got)} of the {len(want)} symmetric images of {kind}; missing the images under {missing}{' foreign ' + str(foreign) if foreign else ''}: not the whole orbit")
         if label == "all_symmetry_sets":
             bad = [w for w in ob.wrappers_on_collected if not (w.startswith("tuple/sorted") or w.startswith("frozenset"))]
             if bad:
@@ -332,6 +381,30 @@ def rule_a4(ctx: Ctx, po: PermOps, mo: MeshOps) -> None:
             ctx.ok("C04-A4", cli.where, "CLI lexmin prints lex_min(Basis.from_string(..))")
         else:
             raise AnalysisError(f"{cli.where}: CLI wrapper shape not recognised")
+
+
+def d4_subgroups() -> List[List[Map2]]:
+    """All subgroups of D4 (closures of generator subsets of the eight extracted-table maps)."""
+    elems = list(D4_POINT.values())
+    ident = D4_POINT["id"]
+    seen: List[Set[Map2]] = []
+    from itertools import combinations
+
+    for r in range(0, 3):
+        for gens in combinations(elems, r):
+            grp = {ident} | set(gens)
+            changed = True
+            while changed:
+                changed = False
+                for a in list(grp):
+                    for b in list(grp):
+                        c = a.then(b)
+                        if c not in grp:
+                            grp.add(c)
+                            changed = True
+            if grp not in seen:
+                seen.append(grp)
+    return [sorted(g, key=repr) for g in sorted(seen, key=len)]
 
 
 def helper_maps(ctx: Ctx, po: PermOps, record: bool = True) -> Dict[str, Map2]:
@@ -424,6 +497,8 @@ def _variants():
         V("perm-allsyms-range-2", replace_expr(PE, "Perm.all_syms", "range(3)", "range(2)"), "fire", "C04-A4"),
         V("perm-allsyms-no-inverse", replace_expr(PE, "Perm.all_syms", "(curr, curr.inverse())", "(curr, curr.reverse().complement())"), "fire", "C04-A4"),
         V("mesh-allsyms-rotate-2", replace_expr(MP, "MeshPatt.all_syms", "current.rotate()", "current.rotate(2)"), "fire", "C04-A4"),
+        V("mesh-allsyms-early-break", insert_stmt(MP, "MeshPatt.all_syms", "symmetries.update((current, current.inverse()))", "if current in symmetries:\n    break", "before"), "fire", "C04-A4"),
+        V("perm-allsyms-break-at-start", insert_stmt(PE, "Perm.all_syms", "syms.update((curr, curr.inverse()))", "if curr == self:\n    break", "before"), "silent", note="stopping when the rotation returns to the start is sound for every symmetry type"),
         V("symsets-no-inverse-in-loop", replace_stmt(SY, "all_symmetry_sets", "answer.add(tuple(sorted(inverse_set(perms))))", "", ), "fire", "C04-A4"),
         V("symsets-unsorted", replace_expr(SY, "all_symmetry_sets", "tuple(sorted(perms))", "tuple(perms)", which=2), "fire", "C04-A4"),
         V("symsets-rotate-180", replace_expr(SY, "all_symmetry_sets", "rotate_90_clockwise_set(perms)", "rotate_180_clockwise_set(perms)"), "fire", "C04-A4"),
